@@ -284,6 +284,20 @@ func genC09(g *GenCtx) {
 	g.Op("raw %s", HexOrDash(muxh.Frame(3, "-", 0, 0, []byte("msg"))))
 	g.Op("read r 3 64")
 	g.Op("read u 3 64")
+	// fixed: a reliable tube this side opened is closed; its identifier stays reserved while the
+	// reaper waits (reap answers `early` when it was released sooner), and is free afterwards
+	for p := 0; p < 2; p++ {
+		g.Op("new %d", p)
+		g.Op("create r 2")
+		g.Op("raw %s", HexOrDash(muxh.Init(byte(p), "PLA", 2)))
+		g.Op("create r 3")
+		g.Op("raw %s", HexOrDash(muxh.Init(byte(p+2), "PLA", 3)))
+		g.Op("reap r %d", p)
+		g.Op("has r %d", p)
+		g.Op("create r 4")
+		g.Op("has r %d", p)
+		g.Op("has r %d", p+2)
+	}
 	nh, nc := 260, 40
 	if g.Thorough() {
 		nh, nc = 8000/g.Parts, 800/g.Parts
